@@ -20,7 +20,8 @@ CONSTANTS MaxLen
 \* BEFORE it (on the freshly converted model) or AFTER it
 Ops == {"set_masks", "freeze_features", "freeze_rf", "freeze_dilation", "train_net_only", "train_nas_only",
         "train_net_and_nas", "summary", "cost", "continuous_cost", "discrete_cost",
-        "train_mode_roundtrip", "export"}
+        "train_mode_roundtrip", "export",
+        "respec", "respec_switch"}      \* cost_specification re-assigned (same spec / another one and back)
 
 VARIABLES masks, sw, rg, dcost, hist
 
